@@ -221,6 +221,12 @@ class World(object):
         parent = builder.get_path(pt.env, pt.obj, op["path"][:-1])
         setattr(parent, op["path"][-1], [self._lv(pt, op["path"], v) for v in op["v"]])
 
+    def op_lo_replace(self, op):
+        """assign an object list a new set of element objects"""
+        pt = self.parties[op["p"]]
+        parent = builder.get_path(pt.env, pt.obj, op["path"][:-1])
+        setattr(parent, op["path"][-1], [pt.env.classes[op["cls"]]() for _ in range(op["n"])])
+
     def _lv(self, pt, path, v):
         cx = refsem.Cx(pt.env.prog, pt.cname, None)
         f = cx.ftype(path)
